@@ -120,11 +120,6 @@ theorem first_final_decides (p : Pkt) (r : SRule) (rs : List SRule) (fb o : Out)
     firstMatchS p (r :: rs) fb must = { o with must := o.must || must } := by
   simp [firstMatchS, hh, ho]
 
-/-- `Route` classifies IPv4 and IPv4-mapped destinations as version 4, everything else as 6. -/
-theorem route_ipversion (is4 : Bool) (dst : Nat) :
-    routeIpVersion is4 dst = if is4 = true ∨ dst / 2 ^ 32 = 0xffff then 1 else 2 := by
-  unfold routeIpVersion; simp
-
 /-! ## The byte-encoded array (what `Match` really walks) -/
 
 /-- **Headline on the byte form.** With every rule's and the fallback's outbound id at most
